@@ -213,6 +213,19 @@ pub fn u3lc() -> Vec<Ty> {
     dedup(out)
 }
 
+/// U3f = K_full∘Kc∘Kc over the reduced alphabet (every constructor of U1 around a depth-2 core).
+pub fn u3f() -> Vec<Ty> {
+    let mut out = Vec::new();
+    for l in reduced_leaves() {
+        for a in k_comp(&l) {
+            for b in k_comp(&a) {
+                out.extend(k_full(&b));
+            }
+        }
+    }
+    dedup(out)
+}
+
 /// Named universes used by the engines' tiers.
 pub fn universe(name: &str) -> Vec<Ty> {
     match name {
@@ -224,7 +237,8 @@ pub fn universe(name: &str) -> Vec<Ty> {
         "u3lc" => u3lc(),
         "quick" => dedup([u1(), pairs()].concat()),
         "thorough" => dedup([u1(), u2(), u3r()].concat()),
-        "deep" => dedup([u1(), u2(), u2f(), u3lc()].concat()),
+        "u3f" => u3f(),
+        "deep" => dedup([u1(), u2(), u2f(), u3lc(), u3f()].concat()),
         _ => panic!("unknown universe {name}"),
     }
 }
@@ -238,8 +252,8 @@ pub fn bounds_json() -> Value {
         "K_full(x)": k_full(&Ty::U8).iter().map(|t| t.to_string().replace("u8", "X")).collect::<Vec<_>>(),
         "K_comp(x)": k_comp(&Ty::U16).iter().map(|t| t.to_string().replace("u16", "X")).collect::<Vec<_>>(),
         "K_pair(a,b)": k_pair(&Ty::U16, &Ty::F64).iter().map(|t| t.to_string().replace("u16", "A").replace("f64", "B")).collect::<Vec<_>>(),
-        "sizes": {"u1": u1().len(), "pairs": pairs().len(), "u2": u2().len(), "u3r": u3r().len(), "u2f": u2f().len(), "u3lc": u3lc().len()},
-        "universes": {"quick": "u1 ∪ pairs", "thorough": "u1 ∪ u2 ∪ u3r", "deep": "u1 ∪ u2 ∪ u2f ∪ u3lc"},
+        "sizes": {"u1": u1().len(), "pairs": pairs().len(), "u2": u2().len(), "u3r": u3r().len(), "u2f": u2f().len(), "u3lc": u3lc().len(), "u3f": u3f().len()},
+        "universes": {"quick": "u1 ∪ pairs", "thorough": "u1 ∪ u2 ∪ u3r", "deep": "u1 ∪ u2 ∪ u2f ∪ u3lc ∪ u3f"},
         "max_values_per_type": MAX_VALUES, "max_values_nested": MAX_NESTED,
         "list_lengths": [0,1,2,3],
     })
